@@ -501,6 +501,10 @@ def cmp_step(m, d, dd, prev, step, loose):
   W = lambda f: getattr(dd, f).numpy()[0]  # noqa: E731
   rq = 5e-4 * loose
   amax = float(np.max(np.abs(d.qacc))) if m.nv else 0.0
+  # RK4: the stored qacc is that of the LAST stage, whose state carries h * (float32 qacc of the earlier
+  # stages) amplified by the stiffness of the system; its round-off scales with the largest acceleration
+  # seen during the step (here: the one at t0), not with its own (possibly much smaller) magnitude
+  amax = max(amax, float(prev.get("qacc0max", 0.0)))
   chk("qacc_warmstart", W("qacc_warmstart"), d.qacc_warmstart, k * rq * (1 + amax))
   if m.nv:
     dvm = float(np.max(np.abs(np.asarray(d.qvel) - prev["qvel"])))
@@ -540,6 +544,9 @@ def lockstep(m, d0, nsteps, ctrl_seq=None):
       d.ctrl[:] = ctrl_seq[s]
       dd.ctrl.assign(np.asarray(ctrl_seq[s], dtype=np.float32).reshape(1, -1))
     prev = {"qpos": d.qpos.copy(), "qvel": d.qvel.copy(), "act": d.act.copy()}
+    if m.opt.integrator == mujoco.mjtIntegrator.mjINT_RK4 and m.nv:
+      mujoco.mj_forward(m, d)  # acceleration at t0 (mj_step recomputes it from the same warmstart)
+      prev["qacc0max"] = float(np.max(np.abs(d.qacc)))
     mujoco.mj_step(m, d)
     mjw.step(mm, dd)
     if d.warning[mujoco.mjtWarning.mjWARN_BADQACC].number or d.warning[mujoco.mjtWarning.mjWARN_BADQPOS].number or d.warning[mujoco.mjtWarning.mjWARN_BADQVEL].number:
